@@ -125,8 +125,13 @@ class Gen16:
         self.feats.add("loop." + kind)
         if limit != 1 or depth > 0:
             self.nontrivial = True
-        body = self.block(depth + 1, env_names + [c], budget)
-        return (kind, c, limit, body)
+        lv = None
+        if r.random() < 0.5:
+            # a loop variable on a while / until loop: assigned for every pass that runs (and only then), readable after the loop
+            lv = ("w%d" % self.counters, r.choice([0, 1, -2, 5]), r.choice([1, 2, -1, 10]))
+            self.feats.add("loop.%s+loop-var" % kind)
+        body = self.block(depth + 1, env_names + [c] + ([lv[0]] if lv else []), budget)
+        return (kind, c, limit, body, lv)
 
     def cond(self, depth, env_names, budget):
         r = self.r
@@ -180,13 +185,19 @@ def render(block, ind="  "):
             out.append('%s  <var %s="{{$%s + %d}}"/>' % (ind, m, m, delta))
             out.append("%s</loop>" % ind)
         elif t in ("while", "until"):
-            _, c, limit, body = node
+            _, c, limit, body, lv = node
             out.append('%s<var %s="0"/>' % (ind, c))
             cond = ("lt($%s, %d)" % (c, limit)) if t == "while" else ("ge($%s, %d)" % (c, limit))
-            out.append('%s<loop %s="%s">' % (ind, t, cond))
+            la = ""
+            if lv:
+                out.append('%s<var %s="77"/>' % (ind, lv[0]))
+                la = ' loop-var="%s" start="%d" step="%d"' % lv
+            out.append('%s<loop %s="%s"%s>' % (ind, t, cond, la))
             out += render(body, ind + "  ")
             out.append('%s  <var %s="{{$%s + 1}}"/>' % (ind, c, c))
             out.append("%s</loop>" % ind)
+            if lv:
+                out.append('%s<text xy="^|v 1" text="after[$%s]"/>' % (ind, lv[0]))
         elif t == "for":
             _, items, var, idx, body = node
             out.append('%s<for var="%s" data="%s"%s>' % (ind, var, ", ".join(items), (' idx-var="%s"' % idx) if idx else ""))
@@ -229,18 +240,21 @@ def unroll(block, env, ind="  "):
             for _k in range(n):
                 out += unroll(body, env, ind)
                 out.append('%s<var %s="{{$%s + %d}}"/>' % (ind, m, m, delta))
-        elif t == "while":
-            _, c, limit, body = node
+        elif t in ("while", "until"):
+            _, c, limit, body, lv = node
             out.append('%s<var %s="0"/>' % (ind, c))
-            for k in range(limit):
-                out += unroll(body, dict(env, **{c: k}), ind)
+            if lv:
+                out.append('%s<var %s="77"/>' % (ind, lv[0]))
+            for k in range(limit if t == "while" else max(1, limit)):
+                e2 = dict(env, **{c: k})
+                if lv:
+                    v = lv[1] + k * lv[2]
+                    out.append('%s<var %s="%s"/>' % (ind, lv[0], rust_display_f64(float(v))))
+                    e2[lv[0]] = v
+                out += unroll(body, e2, ind)
                 out.append('%s<var %s="{{$%s + 1}}"/>' % (ind, c, c))
-        elif t == "until":
-            _, c, limit, body = node
-            out.append('%s<var %s="0"/>' % (ind, c))
-            for k in range(max(1, limit)):
-                out += unroll(body, dict(env, **{c: k}), ind)
-                out.append('%s<var %s="{{$%s + 1}}"/>' % (ind, c, c))
+            if lv:
+                out.append('%s<text xy="^|v 1" text="after[$%s]"/>' % (ind, lv[0]))
         elif t == "for":
             _, items, var, idx, body = node
             for j, it in enumerate(items):
